@@ -54,25 +54,31 @@ class PumlLeg(R.RenderLeg):
             if [d[:2] for d in decls] != exp_decls:
                 return [f"declarations {[d[:2] for d in decls]}, expected each member once in order with its nearest configured class: "
                         f"{exp_decls} (table {ci})"]
-            # every link whose two ends are members: exactly one relation line v1 -> v2 with its class's sides
+            # every link whose two ends are members: exactly one relation line v1 -> v2 with its class's sides, each end
+            # named by the title its own nearest configured class gives it
+            def vcode(v):
+                return R.PCODE.get(nearest(snap["kind"][v], ci), 0) if ci != 0 else R.PCODE["KVertex"]
             internal = {}
             allrel = {}
             for l, k in enumerate(snap["kind"]):
                 if k in H.LINK_KINDS and len(snap["lverts"][l]) >= 2 and any(l in snap["vlinks"][m] for m in members):
                     e = snap["lverts"][l][:2]
-                    key = (e[0] * 100 + e[1]) * 100 + R.PCODE.get(nearest(k, ci), 0)
+                    if e[0] is None or e[1] is None:
+                        continue
+                    key = (e[0], e[1], R.PCODE.get(nearest(k, ci), 0), vcode(e[0]), vcode(e[1]))
                     allrel[key] = allrel.get(key, 0) + 1
                     if e[0] in members and e[1] in members:
                         internal[key] = internal.get(key, 0) + 1
             got = {}
             for r in rels:
-                got[r] = got.get(r, 0) + 1
+                got[tuple(r)] = got.get(tuple(r), 0) + 1
             for key, n in internal.items():
                 if got.get(key, 0) < n:
-                    return [f"{n} internal link(s) with key {key} (v1*10000+v2*100+class) but {got.get(key, 0)} relation line(s) (table {ci})"]
+                    return [f"{n} internal link(s) {key} (v1, v2, link class, title class of v1, of v2) but {got.get(key, 0)} such relation "
+                            f"line(s) (table {ci}); lines: {sorted(got)}"]
             for key, n in got.items():
                 if allrel.get(key, 0) != n:
-                    return [f"{n} relation line(s) with key {key} but {allrel.get(key, 0)} such link(s) exist (table {ci})"]
+                    return [f"{n} relation line(s) {key} but {allrel.get(key, 0)} such link(s) exist (table {ci})"]
         return []
 
     def nontrivial(self, case, obs):
